@@ -1,6 +1,6 @@
 (* C04 — @packageonly is enforced exactly against the union of allowed packages. Statements only. *)
 From Coq Require Import List String ZArith Bool.
-From GG Require Import Base.Strs Model.Config Model.GoAst Model.Annots Model.Analyze Exec
+From GG Require Import Base.Strs Model.Config Model.GoTypes Model.GoAst Model.Annots Model.Analyze Exec
                        Proofs.WalkProofs Proofs.CheckerProofs Properties.C01.
 Import ListNotations.
 Local Open Scope Z_scope.
@@ -64,7 +64,7 @@ Definition ex_pfacts : facts :=
                           {| pa_kind := AKFunc; pa_name := "Internal"; pa_pos := 3; pa_recv := ""; pa_allowed := ["x/d"; "x/bypath"] |}] |})].
 Example C04_nonvacuous :
   let run path name := map (fun d => (d_pos d, d_code d))
-     (x_pkgo ex_cfg {| p_path := path; p_name := name; p_files := [ex_pfile]; p_imports := ["x/d"] |} ex_pfacts (fun _ _ => false)) in
+     (x_pkgo ex_cfg {| p_path := path; p_name := name; p_files := [ex_pfile]; p_imports := ["x/d"]; p_types := empty_typetable |} ex_pfacts (fun _ _ => false)) in
   run "x/u" "u" = [(40, "PKGO02")] /\ run "x/k" "ok" = [] /\ run "x/bypath" "other" = [] /\ run "x/d" "d" = [].
 Proof. vm_compute. repeat split; reflexivity. Qed.
 
